@@ -417,15 +417,10 @@ LexEntry:
             break;
 
         case '.':
-            if (yychar_ == '.') {
+            if (yychar_ == '.' && yytext_[1] == '.') {
+                tk->syntaxK_ = SyntaxKind::EllipsisToken;
                 yyinput();
-                if (yychar_ == '.') {
-                    tk->syntaxK_ = SyntaxKind::EllipsisToken;
-                    yyinput();
-                }
-                else {
-                    tk->syntaxK_ = SyntaxKind::Error;
-                }
+                yyinput();
             }
             else if (std::isdigit(yychar_)) {
                 lexFloatingOrImaginaryFloating_AtFollowOfPeriod(tk, 1);
